@@ -359,6 +359,13 @@ func (fr *Frame) execCall(ins ssa.CallInstruction, cc *ssa.CallCommon) []Term {
 	if res, handled := fr.monitorCall(ins, cc, ci, args); handled {
 		return res
 	}
+	// sync.Once.Do(f) with a visible closure: f runs iff the Once has not fired yet
+	if ci.key == "sync.(*Once).Do" && len(cc.Args) == 2 {
+		if cv := fr.findClosureVal(cc.Args[1]); cv != nil {
+			fr.onceDo(ins, args[0], cv)
+			return nil
+		}
+	}
 	ord := fr.callOrdinal(ci.key)
 	reacquire := fr.callSpecReleases(ci, ins)
 	fr.callSpecAsserts(ci, ord, args, argTypes)
@@ -1219,4 +1226,29 @@ func typeNameOf(e Expr, env *Env) *types.TypeName {
 		}
 	}
 	return nil
+}
+
+// onceDo models sync.Once.Do for a closure literal: the closure body is executed (inlined) exactly
+// when the ghost flag $onceDone of that Once is still false; afterwards the flag is true.
+func (fr *Frame) onceDo(ins ssa.CallInstruction, once Term, cv *closureVal) {
+	c := fr.c
+	done := sel(c.ghost(fr.st, "onceDone"), once, SBool)
+	first := c.fresh("once_first", SBool)
+	c.assumeDef(eq(first, not(done)))
+	before := fr.st.clone()
+	saveReach := fr.reach
+	fr.reach = and(saveReach, first)
+	fn := cv.mc.Fn.(*ssa.Function)
+	ci := &calleeInfo{key: funcKey(fn), keys: []string{funcKey(fn)}, fn: fn, closure: cv, sig: fn.Signature}
+	if fc, ok := c.V.CS.Funcs[ci.key]; ok && !fc.Inline {
+		ci.fc = fc
+		fr.applyContract(ins, ci, nil, nil)
+	} else {
+		fr.inline(ins, ci, nil)
+	}
+	after := fr.st
+	fr.reach = saveReach
+	fr.st = fr.mergeStates([]inEdge{{guard: and(saveReach, first), st: after}, {guard: and(saveReach, not(first)), st: before}}, nil)
+	c.setGhost(fr.st, "onceDone", sto(c.ghost(fr.st, "onceDone"), once, tTrue))
+	c.assumed["sync.Once.Do runs its argument iff the Once has not fired (ghost $onceDone)"] = true
 }
